@@ -21,6 +21,8 @@ def run(chk, tier):
             rows[k] = rows.get(k, 0) + v
         spec_group.check_iterators(chk, lib, limit=4)
         spec_group.check_bases(chk, lib, limit=6)
+        # cursor_range / cursor_subrange of flat and nested groups (start entry, length = n - pos / count, asserts)
+        spec_group.check_groups(chk, lib, limit=6)
     import e4
     import gtab
     import gen
@@ -36,7 +38,7 @@ def run(chk, tier):
                      "returned value/view, cursor position afterwards (for last-field and first-group/data flavours: "
                      "level start + *wire* blockLength), presence of the 'wrong cursor' assertion "
                      "view.begin+absolute == cursor+relative before any access for plain/dont_move/skip and its absence "
-                     "for init kinds, SIZE_CHECK on the base actually accessed, no other write. Plus cursor_range / "
+                     "for init kinds, SIZE_CHECK on the base actually accessed, no other write. Plus cursor_range / cursor_subrange (start, length = size - pos or count) / "
                      "input_iterator rows and message_base::size_bytes(cursor) = c - begin. Decides the per-call rows for "
                      "all inputs; the product space of call sequences is not explored (induction over members stated in "
                      "DESIGN.md). E4: every generated cursor accessor of the corpus forwards to the right primitive flavour (last field -> "
